@@ -85,6 +85,36 @@ CLAIMS = {
         "note": _TRUST,
         "technique": "static analysis: sanitizer-dominates-sink by abstract interpretation with provenance tags; read-set of the origin comparison",
     },
+    "C07": {
+        "text": ("Decides who verifies what, for every configuration cell: the complete decision table of "
+                 "_ssl_wrap_socket_and_match_hostname over cert_reqs x fingerprint x assert_hostname x caller context x backend flags "
+                 "(288 cells, create_urllib3_context/resolve_cert_reqs interpreted in place): verify_mode is the resolved cert_reqs "
+                 "(default REQUIRED); a pinned fingerprint is checked against the configured pin; otherwise, unless assert_hostname=False "
+                 "or CERT_NONE, the hostname is checked by OpenSSL (check_hostname at wrap with a server name) or by _match_hostname with "
+                 "assert_hostname-else-server-name; is_verified <=> REQUIRED or fingerprint; every failed check closes the wrapped socket "
+                 "and propagates. Around it: _validate_conn precedes conn.request on every path of _make_request and connects a closed "
+                 "connection; only _make_request sends on pooled connections; on every normal exit of HTTPSConnection.connect self.sock is "
+                 "the verified socket and is_verified its verdict (False via forwarding proxy); the server name is tunnel host / host / "
+                 "configured override, dot-stripped, and all TLS settings handed over are the connection's own; nothing but a verification "
+                 "result is stored into is_verified/proxy_is_verified; unverified => InsecureRequestWarning; pyOpenSSL callback returns "
+                 "err_no == 0; a hostname mismatch re-raises. Declined: the handshake and chain validation (OpenSSL), string forms of cert_reqs."),
+        "note": _TRUST + "ssl.SSLContext(PROTOCOL_TLS_CLIENT) defaults (check_hostname on, CERT_REQUIRED) are taken from the documentation.",
+        "technique": "static analysis: decision-table extraction over a finite input partition by abstract interpretation; event-order typestate; provenance tags",
+    },
+    "C08": {
+        "text": ("Ties each rule of the statement to a structural fact of the matcher: the DNS pattern is \\A + labels joined by an escaped "
+                 "dot + \\Z, IGNORECASE, applied to the whole hostname; only the left-most label can be non-literal; the whole-label "
+                 "wildcard is a repeat (min 1) of a class excluding '.', a partial wildcard's class excludes '.'; all other labels go through "
+                 "re.escape; more than max_wildcards (=1) in the left-most label raises before a pattern is built; xn-- on either side "
+                 "disables expansion inside the label; in match_hostname the DNS matcher is consulted only for non-IP hosts under key DNS, "
+                 "the IP matcher only for IP hosts under key 'IP Address', commonName only when enabled, non-IP and no SAN seen; success "
+                 "only after a matcher returned true, otherwise CertificateError; IPs compared by packed value with zone id cut; brackets "
+                 "stripped only for IP literals; the fingerprint is normalised before its length selects md5/sha1/sha256 (32/40/64 = 2 x "
+                 "digest size), other lengths raise, hmac.compare_digest of digest vs un-hexed pin, inequality raises. "
+                 "Declined: acceptance over the whole language of names (needs running the matcher)."),
+        "note": _TRUST + "hashlib digest sizes are read from the platform.",
+        "technique": "static analysis: regex structure analysis of folded pattern fragments, decision-table extraction on match_hostname, def-use on assert_fingerprint",
+    },
     "C16": {
         "text": ("Deliberately narrow. Decides only the storage discipline behind the multimap: every access to the storage dict uses a "
                  "lower-cased key; every list stored is built in that statement, copies build per-key fresh lists and no method returns a "
@@ -133,4 +163,4 @@ CLAIMS = {
 _PENDING = "check not built yet in this session (static rules designed in DESIGN.md section 5); will be claimed once its rules run clean"
 
 NOT_APPLICABLE = {pid: _PENDING for pid in
-                  ["C07", "C08", "C09", "C10", "C11", "C12", "C13", "C14", "C15", "C19"]}
+                  ["C09", "C10", "C11", "C12", "C13", "C14", "C15", "C19"]}
